@@ -585,11 +585,21 @@ def inFn : List Val → Val
   | [_] => .bool false
   | elem :: set => .bool (set.any (fun e => ifaceEq elem e))
 
+/-- the function body behind a `funcExprNode`: the built-ins `len` and `in`, and the two functions
+the harness registers as scheduling points: `vdpt`, a validator function registered through
+`ValidateConfig.MustRegValidateFunc` (it reports no error whatever its arguments are, which
+`validator.RegFunc` turns into `true`), and `vdid`, registered with `tagexpr.RegFunc`, which returns
+its first argument (nil without one). -/
+def applyFn (name : String) (vs : List Val) : Val :=
+  if name == "len" then lenFn vs else if name == "in" then inFn vs
+  else if name == "vdid" then (match vs with | v :: _ => v | [] => .nil)
+  else .bool true
+
 def funcNode (name : String) (args : List Operand) (bo so : Option Bool) : Operand :=
   { shape := "F[" ++ ";".intercalate (args.map (·.shape)) ++ "]",
     run := fun env => do
       let vs ← args.mapM (fun a => a.run env)
-      let r := if name == "len" then lenFn vs else inFn vs
+      let r := applyFn name vs
       return realValue r bo so }
 
 def regexpNode (re : Rx) (neg : Bool) (arg : Operand) : Operand :=
@@ -670,8 +680,9 @@ def readOperand : Nat → List Char → Except PErr (Operand × List Char)
                  match liftSort t with
                  | .error e => .error e
                  | .ok t' => .ok (regexpNode re (bo == some true) (groupNode t' none none), rest))
-    else if startsWith last "len(" || startsWith last "in(" then
-      let name := if startsWith last "len(" then "len" else "in"
+    else if startsWith last "len(" || startsWith last "in(" || startsWith last "vdpt(" || startsWith last "vdid(" then
+      let name := if startsWith last "len(" then "len" else if startsWith last "in(" then "in"
+        else if startsWith last "vdpt(" then "vdpt" else "vdid"
       (match readPaired (last.drop name.length) '(' ')' with
        | none => .error (.unsupported "func-unbalanced")
        | some (sub, rest) =>
